@@ -241,3 +241,18 @@ reg(
     TECHNIQUE="fault injection at every I/O step + invariant monitors at quiescent points (slot conservation, socket life-cycle, exception-class and interrupt-identity oracles)",
     REQUIRED_MONITORS={"quick": {"quiescent_point": 20000, "request": 10000, "disposal": 5000, "open_socket_bound": 5000, "interrupt_identity": 200, "lease_probe": 300}, "thorough": {"quiescent_point": 10**5, "request": 10**5}},
 )
+
+reg(
+    "C03",
+    RULE="sequences of 2-4 requests (GET/HEAD/POST) over one pool of size 1-2 with retries False or 2; per arrival the server picks one of 23 behaviours (Content-Length / chunked / close-delimited, keep-alive or Connection: close, segmented delivery, a read timeout or I/O error in the middle of a segmented body whose rest is still in flight, short body, bytes beyond Content-Length, a body whose tail looks like a complete response, 100-continue, 204/304, unsolicited garbage / a complete bogus response / EOF sent with the response or while the connection is idle before the next checkout); per response the caller picks one of 9 behaviours (read all, read part then release, release unread, drain, close, read part then close, stream, stream partly then abandon, ignore); every body embeds the request id taken from the path; length-2 histories enumerated (strided in quick), longer ones random; a case is the whole history; all non-trivial",
+    ASSUMPTIONS=COMMON_ASSUMPTIONS + [
+        "unsolicited bytes are sent either together with the response or at an idle point before the next checkout; bytes arriving after checkout are outside the statement",
+        "a request arriving on a connection with undelivered bytes of the previous exchange is allowed as long as no response is handed to the caller for it (urllib3 may fail with ProtocolError and retry)",
+    ],
+    SHARDS={"quick": 8, "thorough": 16},
+    BUDGET={"quick": 60, "thorough": 420},
+    LEVEL_TEXT="Runtime monitoring with tagged responses: every delivered byte sequence must be a prefix of the body generated for that request id (foreign, shifted or stray bytes are visible), the delivered status must be one the server sent for that id, and the server-side monitor flags any response obtained from a connection that still had undelivered bytes of an earlier exchange when the request arrived.",
+    LEVEL_NOTE="Trusts the in-memory network's delivery bookkeeping (segments / kernel buffer) for the 'unclean connection' monitor.",
+    TECHNIQUE="history monitoring with unique ids embedded in every response (prefix oracle) + server-side cleanliness monitor at request arrival",
+    REQUIRED_MONITORS={"quick": {"history": 5000, "body_prefix": 10000, "clean_connection": 5000}, "thorough": {"history": 10**5, "body_prefix": 10**5}},
+)
